@@ -824,6 +824,19 @@ def r116(rep: Report, ctx: Ctx) -> None:
              "sets of the merge node (multiset of all arriving paths)", 5)
     check_table(rep, ctx, "R1.18", TABLE,
                 ["LogicBlockHolder._check_merge_is_correct"])
+    # (shared with C04 R4.1)  a loaded event without a gate tree has no
+    # outgoing logic: the walk follows one successor and the diagram rejects
+    # the jobs the model was learned from
+    from . import c04 as _c04
+    rep.rule("R1.21", "every write of an event's successor sets marks its "
+             "cached gate tree stale (= C04 R4.1)", 4)
+    sub = Report("C04", ctx.index)
+    sub.rule("R4.1", "", 0)
+    _c04.r41(sub, ctx)
+    for o in sub.obligations:
+        o.rule = "R1.21"
+        rep.obligations.append(o)
+    rep.funcs_seen |= sub.funcs_seen
     from .walkspec import MODEL_TABLE
     rep.rule("R1.20", "an observation keeps its counts through construction, "
              "listing and removal (= C04 R4.8)", 8)
